@@ -291,6 +291,9 @@ func awsChunked(payload []byte, sizes []int, lie string) []byte {
 			// land after payload bytes too, second chunk)
 			m, _ := strconv.Atoi(lie[3:])
 			fmt.Fprintf(&b, "%x;chunk-signature=%s\r\n", n, strings.Repeat("ab", m)[:m])
+		case lie == "upperhex":
+			// not a lie: hex digits are case-insensitive, and some clients write them in upper case
+			fmt.Fprintf(&b, "%X;chunk-signature=%s\r\n", n, chunkSig)
 		default:
 			fmt.Fprintf(&b, "%x;chunk-signature=%s\r\n", n, chunkSig)
 		}
